@@ -26,18 +26,27 @@ fn f_of_k(k: i64) -> f64 {
 /// oracle/generator side free of the library anyway)
 mod pure {
     use vh::Cell;
+    /// no series of this harness is longer than 64; an iterator that yields more than CAP items is a
+    /// runaway (e.g. skip(2^31).chain(repeat_n(v, 2^31)) after a broken guard): stop and flag it
+    pub const CAP: usize = 4096;
     pub fn collect<I: Iterator>(it: I) -> (usize, Vec<I::Item>) {
         let h = it.size_hint().0;
         let mut o = Vec::new();
         for x in it {
-            o.push(x)
+            o.push(x);
+            if o.len() > CAP {
+                break;
+            }
         }
         (h, o)
     }
     pub fn cells<T>(p: (usize, Vec<T>), f: impl Fn(&T) -> Cell) -> (usize, Vec<Cell>) {
-        let mut o = Vec::with_capacity(p.1.len());
-        for x in p.1.iter() {
+        let mut o = Vec::with_capacity(p.1.len().min(64) + 1);
+        for x in p.1.iter().take(64) {
             o.push(f(x))
+        }
+        if p.1.len() > 64 {
+            o.push(Cell::Err) // more items than any input has: reported as an Err cell, not printed in full
         }
         (p.0, o)
     }
